@@ -361,6 +361,14 @@ def exc_key(exc):
         return "hang:" + exc.site
     tb = traceback.extract_tb(exc.__traceback__)
     fr = tb[-1] if tb else None
+    if isinstance(exc, RecursionError) and tb:
+        # where the stack limit happens to be hit is accidental: name the function that recurses
+        # (the most frequent frame)
+        freq = {}
+        for f in tb:
+            freq[(f.filename, f.name)] = freq.get((f.filename, f.name), 0) + 1
+        top = max(freq, key=lambda k: freq[k])
+        return "crash:%s:%s:RecursionError" % (os.path.basename(top[0]), top[1])
     return "crash:%s:%s:%s" % (os.path.basename(fr.filename) if fr else "?", fr.name if fr else "?",
                                type(exc).__name__)
 
@@ -406,10 +414,16 @@ def compare_model(o, ans):
     # resolve_field_references
     fr = ans["frefs"]
     if "fuel" in fr:
-        # the model's distinct out-of-fuel answer: the alias-following loop does not terminate
-        if isinstance(o["s2_exc"], HangError) and exc_key(o["s2_exc"]) == HANG_KEY:
+        # the iteration budget of the alias-following loop: never used up (C12_member_lookup_total)
+        return ["model answered `fuel`, which C12_member_lookup_total excludes; real: exc=%r errors=%r" % (
+            o["s2_exc"], o.get("s2_errors"))]
+    if "recursion" in fr:
+        # the model's distinct out-of-nesting-budget answer: a renaming whose own reference passes
+        # through itself; the Python recurses until RecursionError
+        if o["s2_exc"] is not None and exc_key(o["s2_exc"]) == RECURSION_KEY:
             return []
-        return ["model ran out of fuel; real: exc=%r errors=%r" % (o["s2_exc"], o.get("s2_errors"))]
+        return ["model: unbounded recursion of _resolve_field_reference; real: exc=%r errors=%r" % (
+            o["s2_exc"], o.get("s2_errors"))]
     m_errs = [e["err"] for e in fr if isinstance(e, dict) and "err" in e]
     m_crash = any(e == "crash" for e in fr)
     if o["s2_exc"] is not None:
@@ -1735,14 +1749,29 @@ CORPUS = [
      "two structures with the same field names", ("amb", "Pt")),
     ({"m.emb": "external Bcd:\n  [addressable_unit_size: 8]\nstruct Foo:\n  0 [+1]  Bcd  f\n"},
      "external shadowing a prelude external", ("amb", "Bcd")),
+    # fixed by 22b80e8 (was hang:symbol_resolver.py:_resolve_field_reference); fourth element: what
+    # resolve_field_references must report (a renaming that leads back to itself names no field)
+    ({"m.emb": "struct Foo:\n  0 [+1]  Foo  f\n  let g = f.g\n  let h = g.x\n"},
+     "virtual field renaming itself through a self-typed field", None, ("noncomp", "g")),
+    ({"m.emb": "struct Foo:\n  0 [+1]  Bar  f\n  let g = f.b.g\n  let h = g.x\n"
+               "struct Bar:\n  0 [+1]  Foo  b\n"},
+     "virtual field renaming itself through a second structure", None, ("noncomp", "g")),
+    ({"m.emb": "struct Foo:\n  0 [+1]  Foo  f\n  let g = f.k\n  let k = f.g\n  let h = g.x\n"},
+     "two virtual fields renaming each other", None, ("noncomp", "g")),
+    ({"m.emb": "struct Foo:\n  0 [+1]  Foo  f\n  0 [+1]  UInt  x\n  let g = f.f\n  let k = g.g\n  let h = k.g.f.x\n"},
+     "renamings through a self-typed field that do end in a physical field"),
 ]
 
 # narrow predicate: every error resolve_symbols reported has a synthetic location (a name inside
 # an anonymous `bits:`), so glue.process_ir defers it and goes on with unresolved references
 HIDDEN_KEY = "resolver-errors-all-hidden-as-synthetic"
 # `let g = f.g` where `f` has the enclosing structure as its type: the alias-following loop of
-# _resolve_field_reference never ends
+# _resolve_field_reference never ended (fixed by 22b80e8: visited list; the inputs are in CORPUS,
+# with the error the repaired code must report)
 HANG_KEY = "hang:symbol_resolver.py:_resolve_field_reference"
+# `let g = f.g.x`, same `f`: the reference of `g` needs the members of `g`:
+# _resolve_field_reference calls itself for the reference it is resolving, without end
+RECURSION_KEY = "crash:symbol_resolver.py:_resolve_field_reference:RecursionError"
 
 # pinned inputs of known findings: (key, files, stage)
 FINDING_INPUTS = {
@@ -1753,8 +1782,8 @@ FINDING_INPUTS = {
         {"m.emb": "[requires: Foo.BAR]\nenum Foo:\n  BAR = 1\n"},
     "crash:synthetics.py:_add_anonymous_aliases:AssertionError":
         {"m.emb": "struct Foo:\n  0 [+4]  struct  bar:\n    0 [+1]  bits:\n      0 [+1]  Flag  xx\n"},
-    HANG_KEY:
-        {"m.emb": "struct Foo:\n  0 [+1]  Foo  f\n  let g = f.g\n  let h = g.x\n"},
+    RECURSION_KEY:
+        {"m.emb": "struct Foo:\n  0 [+1]  Foo  f\n  let g = f.g.x\n"},
     HIDDEN_KEY:
         {"m.emb": 'import "imp.emb" as foo\nstruct Xyz:\n  0 [+1]  bits:\n    0 [+4]  UInt  foo\n    4 [+foo]  UInt  baz\n',
          "imp.emb": "struct Baz:\n  0 [+1]  UInt  q\n"},
@@ -1815,6 +1844,13 @@ def evaluate(chk, cases, model_ok, label):
                                             "observed": "resolve_symbols: errors %r, bindings %r" % (got, o.get("s1_refs")),
                                             "expected": "rejected with %r (language reference: a name visible from "
                                                         "two scopes is ambiguous)" % (c["expect"],)})
+            if c.get("expect2") is not None and exc is None:
+                got = [(e[0], e[1]) for e in (o.get("s2_errors") or [])]
+                if tuple(c["expect2"]) not in got:
+                    chk.violation("input", {"input": c["files"],
+                                            "observed": "resolve_field_references: errors %r, bindings %r" % (got, o.get("s2_paths")),
+                                            "expected": "rejected with %r (a virtual field that renames "
+                                                        "itself names no field)" % (c["expect2"],)})
             if exc is not None:
                 chk.violation("input", {"input": c["files"], "observed": "exception %r" % (exc,),
                                         "expected": "IR or located errors"},
@@ -1871,6 +1907,8 @@ def classify(o, ans):
         fr = ans["frefs"]
         if any(e == "crash" for e in fr):
             return "member-crash"
+        if any(e == "recursion" for e in fr):
+            return "member-recursion"
         errs = sorted(set(e["err"][0] for e in fr if isinstance(e, dict) and "err" in e))
         if errs:
             return "member-rejected:" + "+".join(errs)
@@ -1953,7 +1991,8 @@ def known_findings(chk):
 
 
 def corpus_cases():
-    return [{"files": c[0], "expect": c[2] if len(c) > 2 else None} for c in CORPUS]
+    return [{"files": c[0], "expect": c[2] if len(c) > 2 else None,
+             "expect2": c[3] if len(c) > 3 else None} for c in CORPUS]
 
 
 def generated_cases(r, n, size):
